@@ -80,7 +80,8 @@ impl std::hash::Hash for CKey {
 
 pub fn run(s: &Scn, ctx: &mut RunCtx) -> RunOutput {
     world::reset();
-    let cfg = s.knobs.cfg(ctx, 3000, 0);
+    let mut cfg = s.knobs.cfg(ctx, 3000, 0);
+    cfg.max_steps = 60_000; // busy-polling waiters behind a never-completing leader
     let scn = s.clone();
     let setup = move || {
         world::with(|w| {
